@@ -81,6 +81,20 @@ def pred_fallback(api: str, opset: int, o: dict, d) -> bool:
     return api == "convert_version" and capi_path_taken(opset, o) and kind == "lost" and path.startswith("graph.") and bool(FALLBACK_RE.search(path))
 
 
+VMETA_RE = re.compile(r"^graph\.value_info\['([^']*)'\]\.(metadata_props\[|doc_string$)")
+
+
+def pred_fallback_vmeta(api: str, opset: int, o: dict, d, NM) -> bool:
+    """C15-FALLBACK-VALUE-META: on the C-API route `_restore_metadata` matches values by graph input / node output only, so
+    the value_info entry of an INITIALIZER that is not a graph input loses its metadata_props / doc_string.  Nothing else."""
+    path, kind, _ = d
+    m_ = VMETA_RE.match(path)
+    if not (api == "convert_version" and capi_path_taken(opset, o) and kind == "lost" and m_):
+        return False
+    name = m_.group(1)
+    return any(t_.name == name for t_ in NM.graph.initializer) and not any(i_.name == name for i_ in NM.graph.input)
+
+
 # --------------------------------------------------------------------------- driver tables
 
 
@@ -364,7 +378,7 @@ def check_wrapper(api: str, M, o: dict, opset: int, tables: dict, stats: Counter
     if capi_path_taken(opset, o) and api == "convert_version":
         stats["convert_capi_path"] += 1
     for d in ([] if api == "rewrite_empty" else fine_untouched(NM, P)):
-        fid = "C15-FALLBACK" if pred_fallback(api, opset, o, d) else None
+        fid = "C15-FALLBACK-VALUE-META" if pred_fallback_vmeta(api, opset, o, d, NM) else "C15-FALLBACK" if pred_fallback(api, opset, o, d) else None
         problems.append(("property", fid, f"{api}{o}: surviving element lost content: {d}"))
 
     # ---- O2b: an initializer may disappear only together with its uses (payload never lost under a live value)
@@ -803,6 +817,16 @@ def witness_models():
     m.training_info.add().algorithm.name = "alg"
     out["C15-SPARSE"] = m
     out["C15-FALLBACK"] = base(20)
+    m = base(20)
+    m.graph.initializer.append(helper.make_tensor("w", TP.FLOAT, [2], [1.0, 2.0]))
+    m.graph.node.append(helper.make_node("Add", ["y", "w"], ["z"], name="a"))
+    m.graph.output[0].name = "z"
+    vi = helper.make_tensor_value_info("w", TP.FLOAT, [2])
+    vi.doc_string = "weight doc"
+    e = vi.metadata_props.add()
+    e.key, e.value = "k", "v"
+    m.graph.value_info.append(vi)
+    out["C15-FALLBACK-VALUE-META"] = m
     return out
 
 
@@ -866,6 +890,29 @@ def replay_known(run: core.Run, stats: Counter) -> None:
             run.violation({"witness": "C15-FALLBACK", "model": "Relu@20 with graph/node metadata_props and an input doc_string",
                            "call": "convert_version(M, 19, fallback=True)", "lost_proto": lostp, "lost_ir": lostq},
                           f"regression of fixed finding C15-FALLBACK: convert_version(M@20, 19, fallback=True) loses {lostp or lostq}")
+
+
+def replay_value_meta(run: core.Run, stats: Counter) -> None:
+    """C15-FALLBACK-VALUE-META: value_info of an initializer (not a graph input) loses metadata_props / doc_string on the
+    C-API route, on both entries; the native route keeps them."""
+    import onnxscript.version_converter as vc
+    from onnxscript import ir
+
+    m = witness_models()["C15-FALLBACK-VALUE-META"]
+    kept = lambda mm: [(v.doc_string, [(e.key, e.value) for e in v.metadata_props]) for v in mm.graph.value_info if v.name == "w"]
+    p = copy.deepcopy(m)
+    vc.convert_version(p, 19, fallback=True)
+    i = ir.from_proto(copy.deepcopy(m))
+    vc.convert_version(i, 19, fallback=True)
+    q = ir.to_proto(i)
+    n = copy.deepcopy(m)
+    vc.convert_version(n, 21)
+    want = [("weight doc", [("k", "v")])]
+    lost = p.opset_import[0].version == 19 and kept(p) != want and kept(q) != want and kept(n) == want
+    stats["witness_FALLBACK_VALUE_META"] = int(lost)
+    if lost and "C15-FALLBACK-VALUE-META" in {f["id"] for f in run.open_findings()}:
+        run.known("C15-FALLBACK-VALUE-META", f"convert_version(M@20, 19, fallback=True) (onnx C-API route, both entries): value_info['w'] of "
+                  f"initializer 'w' had doc_string + metadata_props {{k: v}}, now {kept(p)}; the native route (target 21) keeps them")
 
 
 def replay_refutation_witnesses(stats: Counter) -> None:
@@ -1070,6 +1117,7 @@ def _main(run: core.Run, audit: dict, tables: dict, stats: Counter) -> None:
         do({"api": "history", "gen_seed": seed, "calls": calls})
 
     replay_known(run, stats)
+    replay_value_meta(run, stats)
     replay_refutation_witnesses(stats)
 
     # ---- verdict
